@@ -29,6 +29,7 @@ static uint8_t *mkcert(size_t *len)
 }
 
 // each op: returns rc, fills out/outlen (the emitted object) and eph/ephlen (the ephemeral public value it should contain)
+static long persist_rep;
 static int run_op(const char *op, uint8_t *out, size_t *outlen, uint8_t *eph, size_t *ephlen)
 {
 	*outlen = 0; *ephlen = 0; int rc = -99;
@@ -38,6 +39,9 @@ static int run_op(const char *op, uint8_t *out, size_t *outlen, uint8_t *eph, si
 	else if (!strcmp(op, "sm2_do_sign")) { SM2_SIGNATURE s; rc = sm2_do_sign(&k1, msg, &s); if (rc == 1) { memcpy(out, s.r, 32); memcpy(out + 32, s.s, 32); *outlen = 64; memcpy(eph, s.r, 32); *ephlen = 32; } }
 	else if (!strcmp(op, "sm2_sign_ctx")) { SM2_SIGN_CTX c; rc = sm2_sign_init(&c, &k1, SM2_DEFAULT_ID, SM2_DEFAULT_ID_LENGTH);
 		if (rc == 1) rc = sm2_sign_update(&c, msg, 40); if (rc == 1) rc = sm2_sign_finish(&c, out, outlen); if (rc == 1) { memcpy(eph, out, 40); *ephlen = 40; } else *outlen = 0; }
+	else if (!strcmp(op, "sm2_sign_ctx_persist")) {            // ONE signing context for the whole history: nonces are precomputed in batches inside the context
+		static SM2_SIGN_CTX pc; rc = persist_rep == 0 ? sm2_sign_init(&pc, &k1, SM2_DEFAULT_ID, SM2_DEFAULT_ID_LENGTH) : sm2_sign_reset(&pc);
+		if (rc == 1) rc = sm2_sign_update(&pc, msg, 40); if (rc == 1) rc = sm2_sign_finish(&pc, out, outlen); if (rc == 1) { memcpy(eph, out, 40); *ephlen = 40; } else *outlen = 0; }
 	else if (!strcmp(op, "sm2_encrypt")) { rc = sm2_encrypt(&k1, msg, 33, out, outlen); if (rc == 1) { memcpy(eph, out, 48); *ephlen = 48; } else *outlen = 0; }
 	else if (!strcmp(op, "sm2_encrypt_fixlen")) { rc = sm2_encrypt_fixlen(&k1, msg, 33, SM2_ciphertext_typical_point_size, out, outlen); if (rc == 1) { memcpy(eph, out, 48); *ephlen = 48; } else *outlen = 0; }
 	else if (!strcmp(op, "sm2_do_encrypt")) { SM2_CIPHERTEXT c; rc = sm2_do_encrypt(&k1, msg, 33, &c); if (rc == 1) { memcpy(out, c.point.x, 32); memcpy(out + 32, c.point.y, 32); *outlen = 64; memcpy(eph, out, 64); *ephlen = 64; } }
@@ -81,8 +85,9 @@ int main(int argc, char **argv)
 		for (long r = 0; r < reps; r++) {
 			uint8_t *out = calloc(1, 16384), eph[128]; size_t ol = 0, el = 0; long d0 = ent_draws();
 			vt_begin("OpBegin"); vt_str("op", op); vt_int("seed", seed); vt_int("failat", failat); vt_int("rep", r); vt_end();
+			int persist = strstr(op, "_persist") != NULL; persist_rep = r; long f0 = ent_failures();
 			int rc = run_op(op, out, &ol, eph, &el);
-			vt_begin("OpEnd"); vt_str("op", op); vt_int("rep", r); vt_int("rc", rc); vt_int("draws", ent_draws() - d0); vt_int("entfail", ent_failed()); vt_int("outlen", (long)ol);
+			vt_begin("OpEnd"); vt_str("op", op); vt_int("rep", r); vt_int("rc", rc); vt_int("draws", ent_draws() - d0); vt_int("entfail", persist ? (ent_failures() > f0) : ent_failed()); vt_int("persist", persist); vt_int("outlen", (long)ol);
 			vt_bytes("out", out, ol < 96 ? ol : 96); vt_bytes("eph", eph, el); vt_end();
 			free(out);
 		}
